@@ -91,6 +91,56 @@ type Desc struct {
 	Randomize   *bool    `json:"randomize,omitempty"`
 	Suppress    []uint64 `json:"suppress,omitempty"`
 	ExtraCH     int      `json:"extra_ch,omitempty"` // bytes of an extra (ignored) ClientHello extension: grows the flight
+	TPs         []TPDesc `json:"tps,omitempty"`      // when non-empty: replaces the base's transport parameter list
+}
+
+// TPDesc describes one entry of a QUICTransportParametersExtension list.
+type TPDesc struct {
+	K  string `json:"k"` // idle maxdata bidi_local bidi_remote uni streams_bidi streams_uni ack_delay udp cidlimit disable_migration iscid dgram greasebit versioninfo grease fake
+	N  uint64 `json:"n,omitempty"`
+	ID uint64 `json:"id,omitempty"` // fake: the (arbitrary or standard) id; grease: IdOverride (0 = random)
+	V  []byte `json:"v,omitempty"`  // fake: raw value; grease: ValueOverride
+}
+
+// ToTLS builds the uTLS parameter.
+func (t TPDesc) ToTLS() tls.TransportParameter {
+	switch t.K {
+	case "idle":
+		return tls.MaxIdleTimeout(t.N)
+	case "maxdata":
+		return tls.InitialMaxData(t.N)
+	case "bidi_local":
+		return tls.InitialMaxStreamDataBidiLocal(t.N)
+	case "bidi_remote":
+		return tls.InitialMaxStreamDataBidiRemote(t.N)
+	case "uni":
+		return tls.InitialMaxStreamDataUni(t.N)
+	case "streams_bidi":
+		return tls.InitialMaxStreamsBidi(t.N)
+	case "streams_uni":
+		return tls.InitialMaxStreamsUni(t.N)
+	case "ack_delay":
+		return tls.MaxAckDelay(t.N)
+	case "udp":
+		return tls.MaxUDPPayloadSize(t.N)
+	case "cidlimit":
+		return tls.ActiveConnectionIDLimit(t.N)
+	case "disable_migration":
+		return &tls.DisableActiveMigration{}
+	case "iscid":
+		return tls.InitialSourceConnectionID{}
+	case "dgram":
+		return tls.MaxDatagramFrameSize(t.N)
+	case "greasebit":
+		return &tls.GREASEQUICBit{}
+	case "versioninfo":
+		return &tls.VersionInformation{ChoosenVersion: tls.VERSION_1, AvailableVersions: []uint32{tls.VERSION_GREASE, tls.VERSION_1}}
+	case "grease":
+		return &tls.GREASETransportParameter{IdOverride: t.ID, Length: uint16(t.N), ValueOverride: t.V}
+	case "fake":
+		return &tls.FakeQUICTransportParameter{Id: t.ID, Val: t.V}
+	}
+	panic("specgen: unknown TPDesc kind " + t.K)
 }
 
 // fixedTokenStore is an explicit TokenStore that hands out the same token for every connection.
@@ -205,6 +255,16 @@ func (d Desc) Build() (*quic.QUICSpec, error) {
 	}
 	if d.Suppress != nil {
 		spec.SuppressTransportParameters = append([]uint64(nil), d.Suppress...)
+	}
+	if len(d.TPs) > 0 && spec.ClientHelloSpec != nil {
+		for _, ext := range spec.ClientHelloSpec.Extensions {
+			if q, ok := ext.(*tls.QUICTransportParametersExtension); ok {
+				q.TransportParameters = nil
+				for _, t := range d.TPs {
+					q.TransportParameters = append(q.TransportParameters, t.ToTLS())
+				}
+			}
+		}
 	}
 	if d.ExtraCH > 0 && spec.ClientHelloSpec != nil {
 		exts := spec.ClientHelloSpec.Extensions
@@ -519,5 +579,77 @@ func GenFlight(t *rapid.T, lo, hi int) [][]FrameItem {
 		}
 		out = append(out, fs)
 	}
+	return out
+}
+
+func varintBytes(v uint64) []byte {
+	switch {
+	case v < 1<<6:
+		return []byte{byte(v)}
+	case v < 1<<14:
+		return []byte{byte(v>>8) | 0x40, byte(v)}
+	case v < 1<<30:
+		return []byte{byte(v>>24) | 0x80, byte(v >> 16), byte(v >> 8), byte(v)}
+	}
+	return []byte{byte(v>>56) | 0xc0, byte(v >> 48), byte(v >> 40), byte(v >> 32), byte(v >> 24), byte(v >> 16), byte(v >> 8), byte(v)}
+}
+
+// GenTPs draws a transport parameter list: typed standard parameters (values inside what a peer accepts), fake
+// parameters with arbitrary ids and with STANDARD ids in raw form, GREASE with fixed / drawn lengths and ids,
+// duplicates of unknown ids. initial_source_connection_id is always present (the peer requires it).
+func GenTPs(t *rapid.T, minN, maxN int) []TPDesc {
+	n := rapid.IntRange(minN, maxN).Draw(t, "ntps")
+	kinds := []string{"idle", "maxdata", "bidi_local", "bidi_remote", "uni", "streams_bidi", "streams_uni", "ack_delay", "udp", "cidlimit", "disable_migration", "dgram", "greasebit", "versioninfo", "grease", "grease", "fake", "fake", "fake-std"}
+	used := map[string]bool{}
+	var out []TPDesc
+	for len(out) < n {
+		k := rapid.SampledFrom(kinds).Draw(t, "tpkind")
+		d := TPDesc{K: k}
+		switch k {
+		case "idle":
+			d.N = rapid.SampledFrom([]uint64{5000, 30000, 600000}).Draw(t, "v")
+		case "maxdata", "bidi_local", "bidi_remote", "uni":
+			d.N = rapid.SampledFrom([]uint64{65536, 1 << 20, 6291456, 15728640}).Draw(t, "v")
+		case "streams_bidi", "streams_uni":
+			d.N = rapid.SampledFrom([]uint64{3, 16, 100, 103}).Draw(t, "v")
+		case "ack_delay":
+			d.N = rapid.SampledFrom([]uint64{20, 25}).Draw(t, "v")
+		case "udp":
+			d.N = rapid.SampledFrom([]uint64{1200, 1472, 65527}).Draw(t, "v")
+		case "cidlimit":
+			d.N = rapid.SampledFrom([]uint64{2, 4, 8}).Draw(t, "v")
+		case "dgram":
+			d.N = rapid.SampledFrom([]uint64{1200, 65535}).Draw(t, "v")
+		case "grease":
+			d.N = uint64(rapid.IntRange(0, 20).Draw(t, "glen"))
+			if rapid.Bool().Draw(t, "gid") {
+				d.ID = 27 + 31*uint64(rapid.IntRange(0, 1<<20).Draw(t, "gmul"))
+			}
+		case "fake":
+			d.ID = rapid.SampledFrom([]uint64{0x4752, 0x3127, 0x7157, 0x3128, 12345, 0x2ab2}).Draw(t, "fid")
+			d.V = rapid.SliceOfN(rapid.Byte(), 0, 12).Draw(t, "fval")
+		case "fake-std":
+			// a standard id in raw form
+			d.K = "fake"
+			d.ID = rapid.SampledFrom([]uint64{0x01, 0x03, 0x04, 0x05, 0x06, 0x07, 0x08, 0x09, 0x0b, 0x0e, 0x20}).Draw(t, "sid")
+			v := map[uint64]uint64{0x01: 30000, 0x03: 1472, 0x04: 1 << 20, 0x05: 65536, 0x06: 65536, 0x07: 65536, 0x08: 16, 0x09: 16, 0x0b: 25, 0x0e: 4, 0x20: 1200}[d.ID]
+			d.V = varintBytes(v)
+			k = fmt.Sprintf("std-%d", d.ID)
+		}
+		// standard parameters at most once (a duplicate makes the peer reject the handshake); unknown ids may repeat
+		key := k
+		if m := map[string]uint64{"idle": 1, "udp": 3, "maxdata": 4, "bidi_local": 5, "bidi_remote": 6, "uni": 7, "streams_bidi": 8, "streams_uni": 9, "ack_delay": 0x0b, "cidlimit": 0x0e, "dgram": 0x20}; m[k] != 0 {
+			key = fmt.Sprintf("std-%d", m[k])
+		}
+		if k != "grease" && k != "fake" {
+			if used[key] {
+				continue
+			}
+			used[key] = true
+		}
+		out = append(out, d)
+	}
+	pos := rapid.IntRange(0, len(out)).Draw(t, "iscid-pos")
+	out = append(out[:pos:pos], append([]TPDesc{{K: "iscid"}}, out[pos:]...)...)
 	return out
 }
